@@ -307,8 +307,10 @@ impl Read for AnyReader {
             }
             let k = if buf.len() < 8 - self.pos { buf.len() } else { 8 - self.pos };
             let mut i = 0;
-            while i < k {
-                buf[i] = self.stream[self.pos + i];
+            while i < 8 {
+                if i < k {
+                    buf[i] = self.stream[self.pos + i];
+                }
                 i += 1;
             }
             self.pos += k;
@@ -340,9 +342,12 @@ impl Read for AnyReader {
         let k: usize = kani::any();
         kani::assume(k >= 1 && k <= buf.len() && k <= 8 - self.pos);
         kani::assume(self.mode != 2 || k <= self.fail_at - self.pos);
+        // constant trip count (k <= 8): a symbolic bound would be unrolled up to the unwind limit on every call
         let mut i = 0;
-        while i < k {
-            buf[i] = self.stream[self.pos + i];
+        while i < 8 {
+            if i < k {
+                buf[i] = self.stream[self.pos + i];
+            }
             i += 1;
         }
         self.pos += k;
@@ -385,8 +390,10 @@ impl Write for AnyWriter {
         let k: usize = kani::any();
         kani::assume(k >= 1 && k <= buf.len() && k <= 8 - self.pos);
         let mut i = 0;
-        while i < k {
-            self.sink[self.pos + i] = buf[i];
+        while i < 8 {
+            if i < k {
+                self.sink[self.pos + i] = buf[i];
+            }
             i += 1;
         }
         self.pos += k;
